@@ -121,14 +121,16 @@ def gen_run(rng, widen, thorough=False):
     ep_len = rng.weighted([(1, 1), (2, 1), (3, 2), (5, 2), (8, 1), (1000, 1)])
     if train_freq[1] == "episode" and ep_len > 8:
         ep_len = 4  # a rollout of k episodes lasts until k episodes ended, whatever total_timesteps says
+    bn = rng.chance(0.35)
     return {
         "kind": "run", "algo": algo, "n_envs": n_envs, "train_freq": train_freq, "gradient_steps": gradient_steps,
         "interval": interval, "delay": delay, "tau": tau, "learning_starts": rng.weighted([(0, 4), (2, 1), (5, 1), (12, 1)]),
         "pre_perturb": rng.chance(0.4),
-        "batch_size": rng.randint(2, 4), "bn": rng.chance(0.35), "learns": learns, "ep_len": ep_len,
+        "batch_size": rng.randint(2, 4), "bn": bn, "learns": learns, "ep_len": ep_len,
         "lr": rng.choice([0.01, 0.03, 0.05]), "seed": rng.randint(0, 2**31 - 1),
         "ent_auto": rng.chance(0.6), "share": rng.chance(0.25), "n_critics": rng.weighted([(1, 1), (2, 2)]),
-        "save_load": n_learn == 2 and rng.chance(0.15 if not widen else 0.3),
+        # (a reloaded model with batch-norm statistics must keep copying them to the target: seeded change C08-h)
+        "save_load": n_learn == 2 and rng.chance(0.5 if bn else (0.15 if not widen else 0.3)),
     }
 
 
